@@ -211,11 +211,13 @@ def awkward_NumpyArray_contiguous_copy_from_many(toptr, fromptrs, fromlens, len,
             j = 0
 ''')
 
-_H["awkward_NumpyArray_fill_tocomplex"] = ("real part converted, imaginary part 0", '''
+_H["awkward_NumpyArray_fill_tocomplex"] = ("complex element tooffset+i = (converted value, 0); tooffset counts complex "
+                                           "elements like in every other fill kernel (NumpyArray::mergemany passes the "
+                                           "number of elements already filled)", '''
 def awkward_NumpyArray_fill_tocomplex(toptr, tooffset, fromptr, length):
     for i in range(length):
-        toptr[tooffset + 2 * i] = fromptr[i]
-        toptr[tooffset + 2 * i + 1] = 0
+        toptr[2 * (tooffset + i)] = fromptr[i]
+        toptr[2 * (tooffset + i) + 1] = 0
 ''')
 
 _H["awkward_NumpyArray_getitem_next_null"] = ("len items of stride bytes gathered from item positions pos[i]", '''
@@ -670,6 +672,15 @@ _KNOWN_DEFECTS = {
                        "(heap-buffer-overflow under ASan) and compares against unrelated elements",
         "match": lambda spec_name, kind, detail, args: kind in ("output-mismatch", "cross-specialisation"),
         "avoid": _argminmax_complex_avoid,
+    },
+    "awkward_NumpyArray_fill_tocomplex": {
+        "present": _src_has("src/cpu-kernels/awkward_NumpyArray_fill_tocomplex.cpp", "toptr[tooffset + 2 * i] = (TO)fromptr[i];"),
+        "mechanism": "C13-fill-tocomplex-offset-units",
+        "description": "awkward_NumpyArray_fill_tocomplex (1.4.0) writes toptr[tooffset + 2*i]: tooffset is taken in float "
+                       "slots although the caller passes complex elements, so with tooffset > 0 the values land in the "
+                       "middle of the elements filled before (fixed in the working tree as toptr[2*(tooffset + i)])",
+        "match": lambda spec_name, kind, detail, args: args.get("tooffset", 0) > 0 and kind in (
+            "output-mismatch", "unwritten-output-touched", "cross-specialisation"),
     },
     "awkward_NumpyArray_sort_asstrings_uint8": {
         "present": _src_has("src/cpu-kernels/awkward_NumpyArray_sort_asstrings_uint8.cpp",
